@@ -227,6 +227,13 @@ def run(ctx):
     from ..families import check_bigint_endianness
     check_bigint_endianness(ctx, P, 'C03.2-bigint-digit-order')
 
+    # the k-th value a parser reads lands in the field the encoder writes k-th
+    from ..fieldorder import check_field_order
+    ctx.rule('C03.2-field-order', 'for every structure built by a parser through its constructor (funs, exports, pids, ports, references): the constructor argument for field f derives from the wire read '
+             'at the position where the encoder writes f; constructor parameter->field map from the constructor body, read positions from the parser\'s data flow, write order from the encoder\'s success paths', floor=10)
+    n_fo = check_field_order(ctx, 'C03.2-field-order')
+    ctx.anchor(n_fo >= 10, 'parsers that build a structure through erltf::types::*::new with an encoder for it')
+
 
 def read_order(PB):
     """block of every read primitive / sub-parser call in the order they occur on success paths"""
